@@ -239,7 +239,7 @@ func runBatch(spec PropSpec, ph Phase, tier string, seed uint64, work string, b,
 		cmd := exec.Command("timeout", args...)
 		cmd.Env = append(os.Environ(), "GOMAXPROCS="+strconv.Itoa(procs), "VERIF_ROOT="+root())
 		if ph.Race {
-			cmd.Env = append(cmd.Env, "GORACE=halt_on_error=0 history_size=3 log_path="+out+".race")
+			cmd.Env = append(cmd.Env, "GORACE=halt_on_error=0 exitcode=0 history_size=3 log_path="+out+".race")
 		}
 		cmd.Env = append(cmd.Env, ph.Env...)
 		errPath := fmt.Sprintf("%s.run%d.stderr", out, run)
@@ -248,8 +248,8 @@ func runBatch(spec PropSpec, ph Phase, tier string, seed uint64, work string, b,
 		err := cmd.Run()
 		ef.Close()
 		last, open, runaway, done := readJournal(out + ".journal")
-		if err == nil && done {
-			break
+		if done && (err == nil || !open) {
+			break // ran to completion (a race-detector build may still exit non-zero)
 		}
 		code := -1
 		if ee, ok := err.(*exec.ExitError); ok {
